@@ -36,9 +36,10 @@ from vlib.refs import c08_nuts as R
 from vlib.refs import c08_targets as TG
 
 PROPERTY = "C08"
-RULE = ("seeded sampling of (monitor kind, implementation, target family/dimension/conditioning, step-size factor "
-        "relative to the smallest length scale 0.02..6, max_depth 0..5, initial point, slice-variable script, "
-        "warm-up settings); a trace case is non-trivial when at least one transition with >=2 doublings was "
+RULE = ("seeded sampling of (monitor kind, implementation, target family/dimension 1..12/conditioning, step-size factor "
+        "relative to the smallest length scale 0.02..6, max_depth 0..9 and the default, initial point (target draw, tail, ones, "
+        "integer-typed) and its representation (float64/float32/CUQIarray), return types of logd/gradient, burn-in, split "
+        "sampling calls, slice-variable script, warm-up settings (adaptive/non-adaptive, tuning frequency, target rate)); a trace case is non-trivial when at least one transition with >=2 doublings was "
         "walked leaf by leaf and judged; a law case when >=3 outcome cells with expected count >=5 were compared "
         "and some sub-tree had unequal weights; a stationarity case when all K replicates moved through the "
         "real kernel and the test battery was evaluated; distinct = distinct descriptors (+ stop-reason sub-keys)")
@@ -56,13 +57,13 @@ REQUIRED_COUNTERS = {
               "cache_checked": 1000, "alpha_stat_checked": 600, "tie_transitions_judged": 20, "hostile_leaves_seen": 40,
               "law_reps": 64000, "law_cells_compared": 70, "stationarity_tests": 130,
               "stationarity_replicates": 240000, "reversibility_points_compared": 25,
-              "volume_jacobians_checked": 6, "warmup_eps_constant_checked": 12},
+              "volume_jacobians_checked": 6, "warmup_eps_constant_checked": 12, "returned_chain_checked": 100},
     "thorough": {"leaves_matched": 60000, "transitions_judged": 9000, "selection_replayed": 9000, "selection_support_checked": 9000,
                  "stop_maxdepth": 2500, "stop_uturn_subtree": 1000, "stop_uturn_top": 3500, "stop_divergence": 1200,
                  "cache_checked": 8000, "alpha_stat_checked": 5000, "tie_transitions_judged": 90, "hostile_leaves_seen": 250,
                  "law_reps": 1000000, "law_cells_compared": 280, "stationarity_tests": 190,
                  "stationarity_replicates": 2800000, "reversibility_points_compared": 180,
-                 "volume_jacobians_checked": 40, "warmup_eps_constant_checked": 60},
+                 "volume_jacobians_checked": 40, "warmup_eps_constant_checked": 60, "returned_chain_checked": 900},
 }
 BUDGET_S = {"quick": 1500.0, "thorough": 7000.0}   # generous: the cases themselves bound the cost; a loaded machine must not skip them
 
@@ -76,9 +77,15 @@ _TSPECS = [
     {"tk": "gauss", "dim": 1}, {"tk": "gauss", "dim": 2, "cond": 10}, {"tk": "gauss", "dim": 3, "cond": 100},
     {"tk": "gauss", "dim": 5, "cond": 1000}, {"tk": "gauss", "dim": 4, "cond": 1}, {"tk": "gauss", "dim": 2, "cond": 400},
     {"tk": "logistic", "dim": 1}, {"tk": "logistic", "dim": 3}, {"tk": "gumbel", "dim": 2}, {"tk": "gumbel", "dim": 1},
-    {"tk": "banana", "dim": 2},
+    {"tk": "banana", "dim": 2}, {"tk": "gauss", "dim": 12, "cond": 20},
 ]
 _FACTORS = [0.02, 0.1, 0.3, 0.7, 1.2, 1.8, 2.5, 6.0]
+
+
+def _reps(rnd):
+    """How values cross the boundary between harness and library (all accepted by the unchanged tree)."""
+    return {"xrep": rnd.choice(["f64", "f64", "f32", "cuqi"]), "lrep": rnd.choice(["float", "float", "np0d", "arr1", "cuqi"]),
+            "grep": rnd.choice(["nd", "nd", "cuqi"])}
 
 
 def _tspec(rnd, pool=None):
@@ -121,15 +128,25 @@ def cases(tier, seed):
     # ---- M1/M2 traces
     n_trace = 240 if quick else 2200
     for i in range(n_trace):
-        out_rest.append({"kind": "trace", "impl": IMPLS[i % 2], "target": _tspec(rnd), "f": rnd.choice(_FACTORS),
-                         "max_depth": rnd.choice([0, 1, 2, 3, 4, 5]), "T": 8, "init": rnd.choice(["draw", "draw", "tail", "ones"]),
+        md = rnd.choice([0, 1, 2, 3, 4, 5, 5, 7, None])
+        out_rest.append({"kind": "trace", "impl": IMPLS[i % 2], "target": _tspec(rnd),
+                         "f": rnd.choice(_FACTORS if md is not None else [0.3, 0.7, 1.2, 1.8, 2.5]),
+                         "max_depth": md, "T": 8, "burn": rnd.choice([0, 0, 3]), "split": rnd.choice([False, True]), "init": rnd.choice(["draw", "draw", "tail", "ones", "int"]),
+                         "reps": _reps(rnd),
                          "emode": rnd.choice(["rand", "rand", "small", "big"]), "sseed": rnd.randrange(10 ** 6)})
+    n_deep = 16 if quick else 120        # deep trees (sub-tree U-turns at depth >= 6)
+    for i in range(n_deep):
+        out_rest.append({"kind": "trace", "impl": IMPLS[i % 2],
+                         "target": _tspec(rnd, [{"tk": "gauss", "dim": 2, "cond": 10}, {"tk": "gauss", "dim": 3, "cond": 100}, {"tk": "logistic", "dim": 3}]),
+                         "f": rnd.choice([0.03, 0.06, 0.1]), "max_depth": rnd.choice([None, 8, 9]), "T": 3, "burn": 0, "split": False,
+                         "init": "draw", "reps": _reps(rnd), "emode": rnd.choice(["rand", "big"]), "sseed": rnd.randrange(10 ** 6)})
     n_adapt = 24 if quick else 160
     for i in range(n_adapt):
         out_rest.append({"kind": "trace_adapt", "impl": IMPLS[i % 2], "target": _tspec(rnd),
                          "max_depth": rnd.choice([2, 3, 4, 5]), "Nb": rnd.choice([8, 15, 25]), "Ns": 6,
                          "tune": rnd.choice(["each", "default"]), "eps0": rnd.choice([None, None, 0.5]),
-                         "init": rnd.choice(["draw", "ones"]), "sseed": rnd.randrange(10 ** 6)})
+                         "amode": rnd.choice(["adapt", "adapt", "noadapt"]), "delta": rnd.choice([0.6, 0.8]),
+                         "init": rnd.choice(["draw", "ones", "int"]), "reps": _reps(rnd), "sseed": rnd.randrange(10 ** 6)})
     n_tie = 12 if quick else 60
     for i in range(n_tie):
         out_rest.append({"kind": "tie", "impl": IMPLS[i % 2], "target": {"tk": "flat", "dim": rnd.choice([1, 2, 3]), "tseed": rnd.randrange(10 ** 6)},
@@ -140,7 +157,7 @@ def cases(tier, seed):
         out_rest.append({"kind": "hostile", "impl": IMPLS[i % 2],
                          "target": {"tk": tk, "dim": rnd.choice([1, 2, 3]), "cond": rnd.choice([1, 10]), "cut": rnd.choice([0.0, 0.8]),
                                     "tseed": rnd.randrange(10 ** 6)},
-                         "f": rnd.choice([0.3, 0.7, 1.2]), "max_depth": rnd.choice([1, 2, 3, 4]), "T": 10, "sseed": rnd.randrange(10 ** 6)})
+                         "f": rnd.choice([0.3, 0.7, 1.2]), "max_depth": rnd.choice([1, 2, 3, 4]), "T": 10, "reps": _reps(rnd), "sseed": rnd.randrange(10 ** 6)})
     n_rev = 16 if quick else 100
     for i in range(n_rev):
         out_rest.append({"kind": "reverse", "impl": IMPLS[i % 2], "target": _tspec(rnd), "f": rnd.choice([0.1, 0.3, 0.7, 1.0]),
@@ -179,27 +196,51 @@ _UNIFORM = ("rand", "uniform", "random", "random_sample")
 
 
 class Rec:
-    """Recording proxy: the callables handed to UserDefinedDistribution."""
-    def __init__(self, tgt, record=True):
+    """Recording proxy: the callables handed to UserDefinedDistribution. `reps` chooses how values are handed
+    back to the library (python float / 0-d array / length-1 array / CUQIarray; ndarray / CUQIarray gradient)."""
+    def __init__(self, tgt, record=True, reps=None):
         self.t, self.events, self.record = tgt, [], record
+        reps = reps or {}
+        self.lrep, self.grep = reps.get("lrep", "float"), reps.get("grep", "nd")
+        self.cuqi = None
 
     def logpdf(self, x):
         v = self.t.logd(np.asarray(x, dtype=float))
         if self.record:
             self.events.append(("L", np.array(x, dtype=float, copy=True), v))
+        if self.lrep == "np0d":
+            return np.array(v)
+        if self.lrep == "arr1":
+            return np.array([v])
+        if self.lrep == "cuqi":
+            return self.cuqi.array.CUQIarray(np.array([v]), geometry=self.cuqi.geometry.Discrete(1))
         return v
 
     def gradient(self, x):
         g = self.t.grad(np.asarray(x, dtype=float))
         if self.record:
             self.events.append(("G", np.array(x, dtype=float, copy=True), np.array(g, dtype=float, copy=True)))
+        if self.grep == "cuqi":
+            return self.cuqi.array.CUQIarray(np.array(g, dtype=float), geometry=self.cuqi.geometry.Continuous1D(self.t.dim))
         return g
 
 
 def cuqi_target(rec):
     import cuqi
+    rec.cuqi = cuqi
     return cuqi.distribution.UserDefinedDistribution(dim=rec.t.dim, logpdf_func=rec.logpdf,
                                                      gradient_func=rec.gradient, name="x")
+
+
+def _represent(x0, xrep):
+    """The initial point in the representation asked for by the case."""
+    x0 = np.asarray(x0)
+    if xrep == "f32":
+        return x0.astype(np.float32)
+    if xrep == "cuqi":
+        import cuqi
+        return cuqi.array.CUQIarray(np.array(x0, dtype=float), geometry=cuqi.geometry.Continuous1D(x0.size))
+    return np.array(x0, copy=True)
 
 
 class Stream:
@@ -233,24 +274,31 @@ class Stream:
         return self.rs.random_sample(shape) if shape != () else float(self.rs.random_sample())
 
 
-def run_chain(impl, tgt, rs, x0, max_depth, eps, T, r_script=None, e_script=None, warm=None, u_const=None, api_alt=False):
+def run_chain(impl, tgt, rs, x0, max_depth, eps, T, r_script=None, e_script=None, warm=None, u_const=None, api_alt=False, reps=None,
+              burn=0, split=False):
     """Run the real sampler for T transitions (after `warm` = dict(Nb, tune) warm-up transitions) from x0 and
     return the transitions cut out of the recorded random stream and evaluation trace."""
     import cuqi
-    rec = Rec(tgt)
+    rec = Rec(tgt, reps=reps)
     target = cuqi_target(rec)
+    xrep = (reps or {}).get("xrep", "f64")
+    x0_used = np.array(_represent(x0, xrep), dtype=float)      # what the sampler really starts from (float32 rounding!)
     stream = Stream(rs, rec, tgt.dim, r_script, e_script, u_const)
     after = []   # per transition: state reported through the callback (+ sampler attributes for the stateful one)
     Nb = warm["Nb"] if warm else 0
+    adapt = bool(warm) and warm.get("amode", "adapt") == "adapt"
+    md_kw = {} if max_depth is None else {"max_depth": max_depth}          # None: the library's default depth
     with Scripted(normal=stream.normal, uniform=stream.uniform, exponential=stream.exponential) as sc:
         if impl == "legacy":
             def cb(sample, idx):
                 after.append({"x": np.array(sample, dtype=float, copy=True)})
             if warm:
-                s = cuqi.sampler.NUTS(target, x0=np.array(x0, copy=True), max_depth=max_depth, adapt_step_size=True,
-                                      opt_acc_rate=warm.get("delta", 0.6), callback=cb)
+                # adaptive warm-up, or the heuristic initial step size kept fixed (adapt_step_size=False)
+                s = cuqi.sampler.NUTS(target, x0=_represent(x0, xrep), adapt_step_size=adapt,
+                                      opt_acc_rate=warm.get("delta", 0.6), callback=cb, **md_kw)
             else:
-                s = cuqi.sampler.NUTS(target, x0=np.array(x0, copy=True), max_depth=max_depth, adapt_step_size=float(eps), callback=cb)
+                Nb = int(burn)
+                s = cuqi.sampler.NUTS(target, x0=_represent(x0, xrep), adapt_step_size=float(eps), callback=cb, **md_kw)
             # N samples incl. the initial one: N + Nb = T + Nb + 1  -> T + Nb transitions
             out = (s.sample_adapt if api_alt else s.sample)(T + 1, Nb)
             samples = np.asarray(out.samples)
@@ -261,21 +309,28 @@ def run_chain(impl, tgt, rs, x0, max_depth, eps, T, r_script=None, e_script=None
                               "logd": _tofloat(getattr(s, "current_target_logd", None)),
                               "grad": _toarr(getattr(s, "current_target_grad", None)),
                               "alpha": _tofloat(getattr(s, "_current_alpha_ratio", None))})
-            kw = {}
+            kw = dict(md_kw)
             if warm:
                 kw["opt_acc_rate"] = warm.get("delta", 0.6)
-            s = cuqi.experimental.mcmc.NUTS(target, initial_point=np.array(x0, copy=True), max_depth=max_depth,
+            s = cuqi.experimental.mcmc.NUTS(target, initial_point=_represent(x0, xrep),
                                             step_size=(None if eps is None else float(eps)), callback=cb, **kw)
-            if warm:
+            if warm and adapt:
                 if warm.get("tune") == "each":
                     s.warmup(Nb, tune_freq=1.0 / Nb)
                 else:
                     s.warmup(Nb)
-            s.sample(T)
+                s.sample(T)
+            else:
+                n_tot = T + (Nb if warm else 0)
+                if split and n_tot >= 2:
+                    s.sample(n_tot // 2)
+                    s.sample(n_tot - n_tot // 2)
+                else:
+                    s.sample(n_tot)
             extra = {"Nb": Nb}
     eps_list = [float(e) for e in getattr(s, "epsilon_list", [])]
     trs = cut_transitions(sc.draws, stream.marks, rec.events, tgt.dim)
-    return {"transitions": trs, "after": after, "eps_list": eps_list, "extra": extra, "sampler": s, "rec": rec}
+    return {"transitions": trs, "after": after, "eps_list": eps_list, "extra": extra, "sampler": s, "rec": rec, "x0_used": x0_used}
 
 
 def _tofloat(v):
@@ -343,6 +398,8 @@ def observed_leaves(events):
 def analyse(ctx, cfg, tgt, tr, x_before, x_after, eps, max_depth, allow_ties=False):
     """Walk the reference tree over the observed leaves of one transition. Returns a dict with the verdict
     details (or None when the transition could not be judged)."""
+    if max_depth is None:
+        max_depth = 15          # documented default of both implementations
     obs = observed_leaves(tr["events"])
     if obs is None:
         ctx.inconclusive("logd/gradient evaluations of a transition are not pairwise at the same points")
@@ -494,6 +551,8 @@ def _init_point(tgt, rs, how):
     x = tgt.draw(rs, 1)[0]
     if how == "tail":
         x = x + 5.0 * tgt.sigma_min * np.sign(rs.standard_normal(tgt.dim))
+    if how == "int":
+        x = np.rint(x).astype(np.int64)        # integer-typed array as initial point
     return x
 
 
@@ -522,7 +581,7 @@ def _walk_chain(ctx, case, cfg, tgt, run, x0, max_depth, eps_fixed, allow_ties=F
         ctx.inconclusive(f"epsilon_list has {len(eps_list)} entries for {len(trs)} transitions")
         return []
     results = []
-    xb = np.asarray(x0, dtype=float)
+    xb = np.asarray(run.get("x0_used", x0), dtype=float)
     deep = 0
     for k, (tr, aft) in enumerate(zip(trs, after)):
         eps = eps_list[k] if eps_list else eps_fixed
@@ -549,17 +608,31 @@ def run_trace(case, ctx):
     eps = _eps(case, tgt)
     T = case["T"]
     run = run_chain(case["impl"], tgt, rs, x0, case["max_depth"], eps, T, e_script=_e_script(case.get("emode", "rand"), rs, T),
-                    api_alt=bool(case["sseed"] % 2))
+                    api_alt=bool(case["sseed"] % 2), reps=case.get("reps"), burn=case.get("burn", 0), split=case.get("split", False))
     res = _walk_chain(ctx, case, cfg, tgt, run, x0, case["max_depth"], eps)
     if case["impl"] == "legacy" and res and all(r is not None and not r.get("problem") for r in res):
         # cached log-density as reported with the samples
         ll, S = run["extra"]["loglike"], run["extra"]["samples"]
+        if np.ndim(ll) != 1 or len(ll) != S.shape[1]:
+            ctx.violation("returned_samples_mismatch", cfg, detail=f"{np.shape(ll)} stored log-densities for samples of shape {S.shape}")
+            return
         for k in range(S.shape[1]):
             ctx.count("cache_checked")
             fresh = tgt.logd(S[:, k])
             if not R.same_point(np.array([float(ll[k])]), np.array([fresh]), rtol=1e-10, atol=1e-12):
                 ctx.violation("stale_cache", cfg, detail=f"sample {k}: stored log-density {ll[k]} but the target at the sample gives {fresh}")
                 break
+    if res and all(r is not None and not r.get("problem") for r in res):
+        # the chain handed back to the user is the sequence of states the transitions produced
+        states = [run["x0_used"]] + [a["x"] for a in run["after"]]
+        if case["impl"] == "legacy":
+            got, want = run["extra"]["samples"], np.array(states[run["extra"]["Nb"]:]).T
+        else:
+            got, want = np.asarray(run["sampler"].get_samples().samples), np.array(states[1:]).T
+        ctx.count("returned_chain_checked")
+        if got.shape != want.shape or not np.array_equal(np.asarray(got, dtype=float), want):
+            ctx.violation("returned_samples_mismatch", cfg, detail=f"the returned samples (shape {got.shape}) are not the states produced by the "
+                          f"transitions (shape {want.shape}); first returned {np.asarray(got)[:, :2].tolist()} vs {want[:, :2].tolist()}")
     ctx.note("eps_maxdepth", [eps, case["max_depth"]])
     ctx.note("stops", [r["stop"] if r and not r.get("problem") else None for r in res])
 
@@ -591,7 +664,7 @@ def run_hostile(case, ctx):
     x0 = tgt.mu + tgt.Q @ (np.sqrt(tgt.lam) * y)
     eps = _eps(case, tgt)
     T = case["T"]
-    run = run_chain(case["impl"], tgt, rs, x0, case["max_depth"], eps, T)
+    run = run_chain(case["impl"], tgt, rs, x0, case["max_depth"], eps, T, reps=case.get("reps"))
     res = _walk_chain(ctx, case, cfg, tgt, run, x0, case["max_depth"], eps)
     for aft in run["after"]:
         ctx.count("returned_state_finite_checked")
@@ -608,15 +681,23 @@ def run_trace_adapt(case, ctx):
     x0 = _init_point(tgt, rs, case.get("init", "draw"))
     Nb, Ns = case["Nb"], case["Ns"]
     eps0 = None if case.get("eps0") is None else float(case["eps0"] * tgt.sigma_min)
-    delta = 0.6
-    run = run_chain(impl, tgt, rs, x0, case["max_depth"], eps0, Ns, warm={"Nb": Nb, "tune": case.get("tune"), "delta": delta})
+    delta = float(case.get("delta", 0.6))
+    amode = case.get("amode", "adapt")
+    if amode == "noadapt":
+        eps0 = None             # heuristic initial step size, then kept fixed
+    run = run_chain(impl, tgt, rs, x0, case["max_depth"], eps0, Ns,
+                    warm={"Nb": Nb, "tune": case.get("tune"), "delta": delta, "amode": amode}, reps=case.get("reps"))
     res = _walk_chain(ctx, case, cfg, tgt, run, x0, case["max_depth"], None)
     el = run["eps_list"]
     if len(el) == Nb + Ns and len(res) == Nb + Ns and all(r is not None and not r.get("problem") for r in res):
         ctx.count("warmup_eps_constant_checked")
-        post = el[Nb + 1:]
+        post = el[Nb + 1:] if amode == "adapt" else el
         if any(e != post[0] for e in post):
-            ctx.violation("step_size_changes_after_warmup", cfg, detail=f"step sizes of the transitions after warm-up: {el[Nb:]}")
+            ctx.violation("step_size_changes_after_warmup", dict(cfg, amode=amode), detail=f"step sizes of the transitions "
+                          f"{'after warm-up' if amode == 'adapt' else 'of a non-adaptive run'}: {el[Nb:] if amode == 'adapt' else el}")
+        if amode != "adapt":
+            ctx.note("eps_first_last", [el[0], el[-1]])
+            return
         if impl == "legacy":
             # invert the dual-averaging recursion of the paper to read off the acceptance statistic that was used
             gamma, t0 = 0.05, 10.0
